@@ -1028,8 +1028,10 @@ theorem pinv_pstate0 (hK : Sites K) {reg : Registry} {plug : Plug} (hp : PlugPos
 
 theorem pinv_preDev (hK : Sites K) {reg : Registry} {plug : Plug} (hp : PlugPositionsAt K reg plug) (opts : Opts) :
     PInv K reg (preDev reg opts plug) := by
-  have h1 : PInv K reg (afterLoop reg opts plug).2 := augmentLoop_pinv hK _ _ _ (pinv_pstate0 hK hp opts)
-  have h2 : PInv K reg (leftoverPass reg opts plug).1 := leftover_pinv hK _ _ (pinv_fixAll _ h1)
+  have h1 : PInv K reg (afterRounds reg opts plug).2 :=
+    afterRounds_state reg opts plug (PInv K reg) (fun fuel mods s h => augmentLoop_pinv hK fuel mods s h)
+      (fun s h => pinv_fixAll s h) (pinv_pstate0 hK hp opts)
+  have h2 : PInv K reg (leftoverPass reg opts plug).1 := leftover_pinv hK _ _ h1
   unfold preDev
   split
   · exact pinv_fixAll _ h2
@@ -1230,6 +1232,7 @@ theorem mem_canonErrs {es : List Err} {x : Err} (h : x ∈ canonErrs es) : x ∈
 
 /-! ### the whole of `processAll` -/
 
+attribute [local irreducible] leftoverRounds in
 theorem processAll_errors_ok (hK : Sites K) {reg : Registry} {plug : Plug} (hp : PlugPositionsAt K reg plug) (opts : Opts) :
     ErrsOK K reg (processAll reg opts plug).errors := by
   rw [processAll_eq]
